@@ -58,9 +58,17 @@ const AAMVA_IDS: [&str; 5] = ["organ_donor", "DHS_compliance", "resident_county"
 pub fn run(ctx: &mut Ctx) {
     let sessions = ctx.budget(25, 1200);
     let max_rounds = if ctx.thorough { 12 } else { 3 };
-    for si in 0..sessions {
+    // one more session at the end: the document signer's certificate becomes valid three seconds after the session starts; the
+    // first round (before that) is played but not judged, the second round, four seconds later, is an honest presentation
+    for si in 0..sessions + 1 {
+        let late_ds = si == sessions;
         let mut rng = ctx.rng.clone();
-        let pki = Pki::generate(&mut rng);
+        let mut pki = Pki::generate(&mut rng);
+        if late_ds {
+            let now = std::time::SystemTime::now().duration_since(std::time::UNIX_EPOCH).unwrap().as_secs();
+            if let Some(c) = crate::pki::leaf_cert_valid(&pki.ds_key, &pki.iaca_key, "CN=Test IACA,C=US", "CN=Test DS,C=US", crate::pki::EKU_DS, 94, now + 3, now + 86_400) { pki.ds = c; }
+            ctx.count("session:signer-certificate-valid-from-3s-after-start");
+        }
         // held mDL
         let mut core: BTreeMap<String, Value> = BTreeMap::new();
         for id in CORE_IDS.iter() { if rng.gen_bool(0.75) { core.insert(id.to_string(), value(&mut rng, 0)); } }
@@ -157,7 +165,7 @@ pub fn run(ctx: &mut Ctx) {
         let Ok(e) = establish(documents_of(mdocs), drms, &first, reg, Default::default()) else { ctx.rng = rng; continue };
         let (mut dev, mut rdr) = (e.dev, e.rdr);
         let ble_equal = e.ble_device == e.ble_reader;
-        let nrounds = if si % 4 == 1 { rng.gen_range(2..=max_rounds.max(2)) } else { rng.gen_range(1..=max_rounds) };
+        let nrounds = if late_ds { 2 } else if si % 4 == 1 { rng.gen_range(2..=max_rounds.max(2)) } else { rng.gen_range(1..=max_rounds) };
         let mut items = e.first_outcome.items_request.clone();
         let mut req = first;
         let mut foreign_sender = false;
@@ -201,7 +209,7 @@ pub fn run(ctx: &mut Ctx) {
             if rng.gen_bool(0.2) { pm.insert("org.example.ns-not-requested".into(), vec!["family_name".into()]); }
             // some rounds deliver nothing at all (the holder declines) or nothing from the core namespace; the
             // session must go on afterwards
-            let declined = round + 1 < nrounds && rng.gen_bool(0.25);
+            let declined = round + 1 < nrounds && rng.gen_bool(0.25) && !late_ds;
             if declined { if rng.gen_bool(0.5) { pm.clear(); } else { pm.remove(NS); } ctx.count("round:declined"); }
             perm.insert(MDL.to_string(), pm);
             if rng.gen_bool(0.3) || foreign_sender { perm.insert("org.example.other".into(), [(NS.to_string(), vec!["x".to_string()])].into_iter().collect()); }
@@ -236,6 +244,7 @@ pub fn run(ctx: &mut Ctx) {
             ctx.count(&format!("engagement:{}", si % 5));
             ctx.count(&format!("digest:{alg:?}"));
             let args = vec![docs_cbor.clone(), req_c, perm_c];
+            if late_ds && round == 0 { std::thread::sleep(std::time::Duration::from_secs(4)); continue; }
             ctx.case("round", json!({"round": round, "request": req, "permitted": perm, "held": nsm.iter().map(|(ns, els)| (ns.clone(), els.iter().map(|(k, v)| json!([k, diag(v)])).collect::<Vec<_>>())).collect::<BTreeMap<_, _>>()}),
                 obs, Some(("c01.round", args.clone())), Some(("c01.spec", args)), true);
         }
